@@ -6,3 +6,6 @@ import Urandom.Props.C06
 import Urandom.Props.C07
 import Urandom.Props.C11
 import Urandom.Props.C13
+import Urandom.Props.C02
+import Urandom.Props.C03
+import Urandom.Props.C08
